@@ -20,7 +20,7 @@ RULE = (
 )
 ASSUMPTIONS = [
     "CodeNotFoundError (documented and unit-tested outcome for an absolute reference '/m/f' that does not resolve) is accepted from select()/probing() alongside SelectorError; it is never accepted from parse().",
-    "The fixed environment contains only total, side-effect-free callables, so any exception from value evaluation is ptera's own.",
+    "A TypeError raised by the call inside VCall.eval itself (the selector's value expression calls an environment object with the wrong arity, or a non-callable such as an int or a Tag) is the evaluated expression's failure and is accepted; every other exception from value evaluation is ptera's own.",
     "probing() may additionally refuse with ValueError('Unsupported focus pattern ...') (unit-tested refusal of '!!' without '!').",
     "For Part S 'refused' means any exception at probing(...) construction or __enter__; the statement does not fix its class.",
     "Termination is decided on a logical step counter, not on wall-clock; the worker watchdog firing is inconclusive.",
@@ -88,6 +88,18 @@ def make_env():
     return ns
 
 
+def _raised_by_value_call(e):
+    tb = e.__traceback__
+    last = None
+    while tb is not None:
+        last = tb
+        tb = tb.tb_next
+    if last is None:
+        return False
+    co = last.tb_frame.f_code
+    return co.co_name == "eval" and co.co_filename.endswith("selector.py")
+
+
 def classify(fn, text, steps):
     """Run fn(text); return (class, detail)."""
     from ptera.selector import Selector, SelectorError
@@ -107,6 +119,11 @@ def classify(fn, text, steps):
     except TypeError as e:
         if str(e) == DOC_TYPEERROR:
             return "TypeError-doc", None
+        if _raised_by_value_call(e):
+            # the selector's value expression called an object of the environment that is not
+            # callable that way (x() with x an int, f() with a missing argument, @T()): the
+            # failure is the evaluated expression's, not the compiler's
+            return "value-call-TypeError", None
         return "bad:TypeError", repr(e)
     except ValueError as e:
         # probe construction refuses a second-focus mark without a first this way (tests/test_probe.py)
